@@ -65,7 +65,7 @@ func VerifH_C09_cosim() {
 	K := verifParam("K", 5)
 	for r.k = 0; r.k < K; r.k++ {
 		ti := 0
-		if len(r.tracks) > 1 && r.k > 0 {
+		if len(r.tracks) > 1 && r.k > 0 && verifParam("NOAUDIO", 0) == 0 {
 			ti = verifChoice("track", len(r.tracks))
 		}
 		if r.g.tracks[ti].video {
@@ -199,6 +199,21 @@ func VerifH_C09_cosim() {
 	if !haveOrigin {
 		return
 	}
+	// known finding: when a declared track has no data at all in the segments the client reads (e.g. an audio track
+	// that starts later than the video), its rendition segments are empty and the client gives up ("could not find data
+	// of leading track"); that input class has its own label so that any other loss of units is still reported
+	undelivered := "unit-delivered"
+	for _, t := range g.tracks {
+		has := false
+		for _, e := range t.emitted {
+			if e.seg >= first && e.seg < len(g.segs) {
+				has = true
+			}
+		}
+		if !has {
+			undelivered = "unit-delivered [a declared track has no data in the segments the client reads]"
+		}
+	}
 	for ti, t := range g.tracks {
 		o := multiplyAndDivide(origin, int64(t.rate), int64(lead.rate))
 		gi := 0
@@ -215,7 +230,7 @@ func VerifH_C09_cosim() {
 				continue // precedes the origin
 			}
 			if gi >= len(delivered[ti]) {
-				verifFail("C09", "unit-delivered")
+				verifFail("C09", undelivered)
 				continue
 			}
 			d := delivered[ti][gi]
